@@ -105,6 +105,7 @@ Names(fam) == CASE fam = "C15" /\ Prop = "C10" -> {"C10_RecordsEffectiveAddress"
                 [] fam = "C14len" /\ Prop = "C04" -> {"C04_ConfiguredMaximumGoverns"}
                 [] fam = "C14cookie" /\ Prop = "C02" -> {"C02_ExpiryJudgedAtPresentation"}
                 [] fam = "C06deadline" -> {"C06_SilentUntilDeadlineClose"} [] fam = "C08hdr" -> {"C08_HeaderSegmentationIrrelevant"}
+                [] fam = "C14reissue" -> {"C14_ExpiryWherePresented"}
                 [] fam = "C14lenAt" -> {"C14_MaxLengthEverywhere"} [] fam = "C03len" -> {"C03_FinalPacketWhateverItsSize"}
                 [] fam = "C14len" -> {"C14_MaxLength"} [] fam = "C14cookie" -> {"C14_CookieAcceptance"} [] fam = "C14deadline" -> {"C14_Deadline", "C14_OverlongRefused"}
                 [] OTHER -> {}
@@ -123,6 +124,8 @@ Clause(c, r) ==
     [] c = "C02_ExpiryJudgedAtPresentation" -> C02_ExpiryJudgedAtPresentation(r) [] c = "C06_SilentUntilDeadlineClose" -> C06_SilentUntilDeadlineClose(r)
     [] c = "C08_HeaderSegmentationIrrelevant" -> C08_HeaderSegmentationIrrelevant(r)
     [] c = "C14_MaxLengthEverywhere" -> C14_MaxLength(r)
+    \* a cookie issued elsewhere (another instance, an earlier configuration) under a longer expiry: what counts is the expiry configured here
+    [] c = "C14_ExpiryWherePresented" -> r.issued /\ C14_CookieAcceptance(r)
     \* C03: the player gets the Transfer (after the cookies) or the configured Disconnect text whatever their size -- the configured maximum
     \* frame length limits what the client may send, not what the server has to say
     [] c = "C03_FinalPacketWhateverItsSize" -> r.end = r.expectEnd /\ (r.expectEnd = "transfer" => r.cookieBytes > r.maxLen) /\ (r.expectEnd = "disconnect" => r.reasonLen > r.maxLen)
